@@ -576,16 +576,21 @@ fn law(b: &B, recv: &Value, kw: &Kw, imp: &str) -> Option<String> {
             let (i, o) = (s_in?, s_out.as_deref()?);
             let pat = kw_str(kw, "pat");
             let (do_start, do_end) = (b.name != "trim_end", b.name != "trim_start");
-            let Some(pos) = find_sub(i, o, do_start, do_end) else {
-                return Some(format!("result {o:?} is not the input {i:?} minus its ends"));
-            };
-            let (pre, suf) = (&i[..pos], &i[pos + o.len()..]);
             let only = |part: &str| match pat {
                 None => part.chars().all(char::is_whitespace),
                 Some("") => part.is_empty(),
                 Some(p) => part.len() % p.len() == 0 && part.as_bytes().chunks(p.len()).all(|c| c == p.as_bytes()),
             };
-            if !only(pre) || !only(suf) || (!do_start && !pre.is_empty()) || (!do_end && !suf.is_empty()) {
+            // some occurrence of the result inside the input must leave only matching ends
+            let fits_at = |pos: usize| {
+                let (pre, suf) = (&i[..pos], &i[pos + o.len()..]);
+                only(pre) && only(suf) && (do_start || pre.is_empty()) && (do_end || suf.is_empty())
+            };
+            let positions: Vec<usize> = (0..=i.len().saturating_sub(o.len())).filter(|p| i.is_char_boundary(*p) && i[*p..].starts_with(o)).collect();
+            if positions.is_empty() {
+                return Some(format!("result {o:?} is not the input {i:?} minus its ends"));
+            }
+            if !positions.iter().any(|p| fits_at(*p)) {
                 return Some(format!("removed something that is not a matching end: {i:?} -> {o:?}"));
             }
             let left_start = match pat {
@@ -788,9 +793,8 @@ fn law(b: &B, recv: &Value, kw: &Kw, imp: &str) -> Option<String> {
             let scale = if prec == 0 { 1.0 } else { 10f64.powi(prec as i32) };
             let overflow = !(scale * x).is_finite();
             if !matches!(method, None | Some("ceil") | Some("floor")) {
-                // (when scaling overflows or the value is not finite the engine answers before
-                // looking at the method)
-                return (!is_err && !overflow).then(|| format!("unknown rounding method accepted: `{}`", short(imp)));
+                // an unknown method is an error for every value (finite or not, scaled or not)
+                return (!is_err).then(|| format!("unknown rounding method accepted: `{}`", short(imp)));
             }
             let o = out.as_ref().filter(|o| o.is_f64()).and_then(|o| o.as_f64());
             let Some(r) = o else { return Some(format!("round must give a float, got `{}`", short(imp))) };
@@ -947,20 +951,6 @@ fn bits(f: f64) -> u64 {
 
 fn short(s: &str) -> String {
     s.chars().take(120).collect()
-}
-
-/// position of `o` inside `i` consistent with which ends may be trimmed
-fn find_sub(i: &str, o: &str, do_start: bool, do_end: bool) -> Option<usize> {
-    if !do_start {
-        return i.starts_with(o).then_some(0);
-    }
-    if !do_end {
-        return i.ends_with(o).then(|| i.len() - o.len());
-    }
-    if o.is_empty() {
-        return Some(i.len());
-    }
-    i.find(o)
 }
 
 /// The argument oracle: what the documented signature demands of this cell. Returns the required
@@ -1136,6 +1126,17 @@ fn random_cells(bs: &[B], rng: &mut Rng, n_str: usize, n_num: usize, n_range: us
                 kw.push(("method", Value::from(m)));
             }
             out.push(Cell { b: idx("round", "filter"), ri: usize::MAX, recv: Value::from(x), kw, shape: "regression:F15".into(), to_model: true });
+        }
+    }
+    // regression: an invalid `method` is an error also when the value is not finite or the
+    // scaling overflows (the first version of the F15 fix answered the value)
+    for (x, p) in [(f64::INFINITY, None), (f64::NEG_INFINITY, None), (f64::NAN, None), (1e308, Some(2i64)), (f64::MAX, Some(1)), (2.5, None), (2.5, Some(2))] {
+        for m in ["bogus", "x", "", "Ceil", "round"] {
+            let mut kw: Kw = vec![("method", Value::from(m))];
+            if let Some(p) = p {
+                kw.push(("precision", Value::from(p)));
+            }
+            out.push(Cell { b: idx("round", "filter"), ri: usize::MAX, recv: Value::from(x), kw, shape: "regression:F15-method".into(), to_model: true });
         }
     }
     let edge = [i128::MIN, i128::MIN + 1, -100_001, -100_000, -3, -1, 0, 1, 2, 3, 7, 99_999, 100_000, 100_001, i128::MAX - 1, i128::MAX, i64::MAX as i128, 1 << 100];
